@@ -112,6 +112,8 @@ class Run(Part):
                 inconclusive.append("counter %s = %d < required %d" % (c, self.counters.get(c, 0), m))
         try:
             # margins of the coverage requirements (tools/margins.py summarises them over many seeds)
+            if os.environ.get("VERIF_REPO", "/repo") != "/repo":
+                raise OSError("scratch tree: not logged")
             with open(os.path.join(VERIF, "out", "margins.log"), "a") as fh:
                 for c, m in self.min_events.items():
                     if m > 0:
